@@ -1,7 +1,9 @@
 (* use: util_isa *)
 (* driver of the MVP-1/2/3 model oracle.
    mvp case: variant \t memsize \t regs \t meminit \t labels \t fuel \t prog *)
+let os_flag = ref ""
 let mvp_case _ line =
+  os_flag := "";
   let f = fields line in
   let variant = String.trim f.(0) in
   let memsize = int_of_string (String.trim f.(1)) in
@@ -20,6 +22,38 @@ let mvp_case _ line =
     | "3" -> mvp3_run (nat_of_int fuel) prog (lookup labels) st
     | "4" -> mvp4_run (nat_of_int fuel) prog (lookup labels) st
     | "5" -> mvp5_run (nat_of_int fuel) prog (lookup labels) st
+    | v when String.length v >= 5 && String.sub v 0 4 = "6.0x" ->
+      (* "6.0x<par>", "6.0x<par>o<k>" or "6.0x<par>r<seed>": MVP-6.0 with <par> execute/write units.
+         The iteration order of a store's MemoryChanges map is the k-th permutation of its ascending
+         keys (perm_of): o<k> = the same k for every store (default 0 = ascending; k mod #keys is the
+         index of the first key); r<seed> = a pseudo-random k per (cycle, pc) of the store.
+         The ghost flag of the model is recorded in os_flag and printed as a last field os=0|1. *)
+      let rest = String.sub v 4 (String.length v - 4) in
+      (* a trailing 's': print the state reached when the fuel is exhausted *)
+      let snap = rest.[String.length rest - 1] = 's' in
+      let rest = if snap then String.sub rest 0 (String.length rest - 1) else rest in
+      let split c = match String.index_opt rest c with
+        | None -> None
+        | Some i -> Some (int_of_string (String.sub rest 0 i), int_of_string (String.sub rest (i + 1) (String.length rest - i - 1))) in
+      let par, ord = match split 'o', split 'r' with
+        | Some (par, k), _ -> par, ord_policy (z_of_int k)
+        | None, Some (par, seed) ->
+          par, (fun cycle pc l ->
+              let h = Hashtbl.hash (seed, int_of_z cycle, int_of_z pc) in
+              perm_of (z_of_int (h mod 24)) l)
+        | None, None -> int_of_string rest, ord_policy Z0 in
+      (match mvp60_run_snap (nat_of_int par) ord (nat_of_int fuel) prog (lookup labels) st with
+       | Inl (r, os) -> os_flag := (if os then " os=1" else " os=0"); r
+       | Inr ((((c, st'), pw), pr), os) ->
+         os_flag := (if os then " os=1" else " os=0");
+         if snap then begin
+           (* what the harness command `runb` prints when the budget is exhausted *)
+           let nz l = List.filter (fun (i, v) -> v <> 0 && i <> 0) (List.mapi (fun i v -> (i, int_of_z v)) l) in
+           let ms = List.filter (fun (i, v) -> v <> int_of_z mem.(i)) (List.mapi (fun i v -> (i, int_of_z v)) st'.mem) in
+           let p l = String.concat "," (List.map (fun (a, b) -> Printf.sprintf "%d:%d" a b) l) in
+           os_flag := Printf.sprintf " r=%s m=%s pw=%s pr=%s%s" (p (nz st'.regs)) (p ms) (p (nz pw)) (p (nz pr)) !os_flag
+         end;
+         MOutOfFuel)
     | _ -> failwith ("unknown variant " ^ variant) in
   match res with
   | MDone (c, st') ->
@@ -28,10 +62,10 @@ let mvp_case _ line =
     let ms = List.mapi (fun i v -> (i, int_of_z v)) st'.mem in
     let ms = List.filter (fun (i, v) -> v <> int_of_z mem.(i)) ms in
     let p l = String.concat "," (List.map (fun (a, b) -> Printf.sprintf "%d:%d" a b) l) in
-    Printf.printf "ok c=%d r=%s m=%s\n" (int_of_z c) (p rs) (p ms)
-  | MErr e -> Printf.printf "err %s\n" (err_name e)
-  | MPanic -> print_endline "panic"
-  | MOutOfFuel -> print_endline "outoffuel"
+    Printf.printf "ok c=%d r=%s m=%s%s\n" (int_of_z c) (p rs) (p ms) !os_flag
+  | MErr e -> Printf.printf "err %s%s\n" (err_name e) !os_flag
+  | MPanic -> print_endline ("panic" ^ !os_flag)
+  | MOutOfFuel -> print_endline ("outoffuel" ^ !os_flag)
 
 let () =
   let cmd = Sys.argv.(1) and file = Sys.argv.(2) in
